@@ -15,7 +15,7 @@ ValOf(j) == IF j.kind = "float"
 
 SameValue(v, j) ==
     /\ v.kind = j.kind
-    /\ CASE v.kind = "float" -> j.cls = "fin" /\ FCmp(v.f, ValOf(j).f) = 0 /\ (v.f.m = <<>> => TRUE)
+    /\ CASE v.kind = "float" -> j.cls = "fin" /\ FCmp(v.f, ValOf(j).f) = 0 /\ (v.f.m = <<>> => v.f.neg = ValOf(j).f.neg)    \* the sign of a zero is part of the IEEE result
          [] v.kind = "bool" -> v.b = j.b
          [] OTHER -> ZCmp(v.z, IntOfDec(j.dec)) = 0
 
